@@ -69,7 +69,11 @@ fn book_line(rng: &mut Rng, maxvars: usize, maxops: usize) -> String {
             let lit = Literal::new(l, *b);
             let rebuilt = |m: &PartialModel| -> bool {
                 let a: Vec<Option<bool>> = (0..n).map(|x| m.get(VarLabel::new_usize(x))).collect();
-                PartialModel::from_assignments(&a) == *m
+                let same = PartialModel::from_assignments(&a) == *m;
+                // a total model built by `from_total_model` agrees with `from_assignments`
+                let tot: Vec<bool> = a.iter().map(|o| o.unwrap_or(false)).collect();
+                let tot_o: Vec<Option<bool>> = tot.iter().map(|b| Some(*b)).collect();
+                same && PartialModel::from_total_model(&tot) == PartialModel::from_assignments(&tot_o)
             };
             obs.push(format!(
                 "{}/{}/{}/{}/{}/{}/{}/{}{}{}{}/{}{}/{}/{}/{}/{}/{}/{}/{}/{}/{}{}{}{}",
